@@ -237,8 +237,22 @@ func combosFor(t *rapid.T, label string, reg *pubdata.RegimeInfo, include string
 		if rapid.IntRange(0, 11).Draw(t, label+"_ext") < pExt {
 			cb.Ext = map[string]string{"xx-verif-group": rapid.SampledFrom([]string{"A", "B"}).Draw(t, label+"_extv")}
 		}
-		if cat.Code == "VAT" && cb.Rate == "" && len(others) > 0 && rapid.IntRange(0, 14).Draw(t, label+"_cty") < pCty {
-			cb.Country = rapid.SampledFrom(others).Draw(t, label+"_ctyv")
+		if cb.Rate == "" && len(others) > 0 && rapid.IntRange(0, 14).Draw(t, label+"_cty") < pCty {
+			if cat.Code == "VAT" && rapid.IntRange(0, 2).Draw(t, label+"_ctyvat") > 0 {
+				cb.Country = rapid.SampledFrom(others).Draw(t, label+"_ctyv")
+			} else {
+				// any category of any other regime, ordinary or retained
+				regs, list := pubdata.Regimes()
+				cc := rapid.SampledFrom(list).Draw(t, label+"_ctya")
+				if fr := regs[cc]; cc != reg.Country && len(fr.Categories) > 0 {
+					fc := fr.Categories[rapid.IntRange(0, len(fr.Categories)-1).Draw(t, label+"_ctyc")]
+					if fc.Code == cat.Code || !used[fc.Code] {
+						used[fc.Code] = true
+						cb.Cat = fc.Code
+						cb.Country = cc
+					}
+				}
+			}
 		}
 		out = append(out, cb)
 	}
